@@ -14,6 +14,15 @@ byte-exact `uvarint`, `bufio.Reader` calls, CRC-32, `WriteTo`, `ReadFrom`, `load
 `Cfg.pinned` is the code as pinned, `Cfg.guarded` the code with the proposed repairs, `currentCfg` the one
 the correspondence run ties to /repo.
 
+Tie to /repo: `gen_script_encoder/decoder/loader` — every statement of the eleven codec and loader functions,
+regenerated on every run, equals the annotated table the model transcribes (`Bluge.Codec.Script`) — plus the
+correspondence stream `codec`.
+
+Acceptance: `accept_char` (any configuration), `readFrom_eq_sDecode` (the buffered decoder = the buffer-free
+grammar), `accept_char_checked` / `accepted_consumes_whole_body` (after fix 7033aea: the whole body is consumed
+and covered by the CRC), `accepted_isEncoding_iff` (which accepted files are not `WriteTo` output: only another
+spelling of the same state — known finding `accepted-noncanonical-overlong-or-payload`).
+
 On the pinned code the safety part of the property is FALSE (confirmed on the real code by the harness):
 the full statement is `SafeStatement`, it is proved for the repaired code (`C12_safe_guarded`), refuted for
 the pinned code (`C12_safe_fails_pinned`, with the concrete witnesses beside it) and what does hold of the
